@@ -171,3 +171,234 @@ def f_ip_address(it, address):
 
 UF_ORACLES.setdefault("lower", lambda s: s.lower())
 UF_ORACLES.setdefault("upper", lambda s: s.upper())
+
+
+# ---------------------------------------------------------------------------------------------
+# split(): exact on *structured* strings (concatenations of literals and symbolic pieces that provably contain no separator)
+
+WS_STR = "\x09\x0a\x0b\x0c\x0d\x1c\x1d\x1e\x1f\x20\x85\xa0\u1680\u2000\u2001\u2002\u2003\u2004\u2005\u2006\u2007\u2008\u2009\u200a\u2028\u2029\u202f\u205f\u3000"  # every code point with str.isspace()
+WS_BYTES = " \t\n\r\x0b\x0c"
+
+_lib_split = METHODS[(SStr, "split")]
+
+
+def _free_of(it, p, chars):
+    """pc => p contains none of chars (proved by the solver; unknown counts as 'cannot exclude')"""
+    anyc = z3.Star(z3.AllChar(z3.ReSort(z3.StringSort())))
+    cls = z3.Union(*[z3.Re(z3.StringVal(c)) for c in chars]) if len(chars) > 1 else z3.Re(z3.StringVal(chars))
+    return not it.ex.feasible(z3.InRe(p, z3.Concat(anyc, cls, anyc)))  # regex form: decided quickly by the sequence solver
+
+
+def _structured_split(it, s, seps, keep_empty):
+    """tokens of s split at every character in `seps` (keep_empty: str.split(sep) semantics, else str.split() semantics),
+    or None if s is not a concatenation whose symbolic pieces are provably free of separators."""
+    pieces = _flatten_concat(simp(s.t))
+    atoms = []  # "SEP" | z3 term (separator-free, possibly empty only when keep_empty)
+    for p in pieces:
+        if z3.is_string_value(p):
+            for ch in str_value_to_pystr(p):
+                atoms.append("SEP" if ch in seps else z3.StringVal(ch))
+            continue
+        if not _free_of(it, p, seps):
+            return None
+        if not keep_empty:
+            # whitespace split drops empty tokens: whether this piece contributes must be decided on this path
+            if not it.branch(SBool(z3.Length(p) > 0)):
+                continue
+        atoms.append(p)
+    T = type(s)
+    tokens, cur, have = [], [], False
+    for a in atoms:
+        if isinstance(a, str):
+            if keep_empty or have:
+                tokens.append(T(simp(_concat_terms(cur))))
+            cur, have = [], False
+        else:
+            cur.append(a)
+            have = True
+    if keep_empty or have:
+        tokens.append(T(simp(_concat_terms(cur))))
+    return SList(tokens)
+
+
+def _split_x(it, s, *a, **k):
+    c = s.concrete()
+    if c is None:
+        maxsplit = a[1].concrete() if len(a) > 1 else (k["maxsplit"].concrete() if "maxsplit" in k else -1)
+        if maxsplit == -1:
+            if not a or isinstance(a[0], SNoneT):
+                r = _structured_split(it, s, WS_STR if isinstance(s, SStr) else WS_BYTES, keep_empty=False)
+                if r is not None:
+                    return r
+            else:
+                sep = a[0].concrete()
+                if sep is not None and len(sep) == 1:
+                    r = _structured_split(it, s, sep if isinstance(sep, str) else sep.decode("latin-1"), keep_empty=True)
+                    if r is not None:
+                        return r
+    return _lib_split(it, s, *a, **k)
+
+
+METHODS[(SStr, "split")] = _split_x
+METHODS[(SBytes, "split")] = _split_x
+
+
+# ---------------------------------------------------------------------------------------------
+# base64: uninterpreted, with decode(encode(x)) == x instantiated on every encoding term that is built
+
+import base64 as _base64
+import binascii as _binascii
+
+B64_ALPHABET = z3.Union(z3.Range("A", "Z"), z3.Range("a", "z"), z3.Range("0", "9"), z3.Re("+"), z3.Re("/"), z3.Re("="))
+
+
+def b64encode_t(x):
+    return uf("b64encode", _S, _S)(x)
+
+
+def a2b_t(x):
+    return uf("a2b_base64", _S, _S)(x)
+
+
+def b64_valid_t(x):
+    return uf("b64_valid", _S, _B)(x)
+
+
+def b64_axioms(x):
+    """true facts about e = b64encode(x): decodes back to x, is accepted, is made of the base64 alphabet, is empty iff x is"""
+    e = b64encode_t(x)
+    return [a2b_t(e) == x, b64_valid_t(e), z3.InRe(e, z3.Star(B64_ALPHABET)), (z3.Length(e) == 0) == (z3.Length(x) == 0),
+            a2b_t(z3.Concat(e, z3.StringVal("\n"))) == x, b64_valid_t(z3.Concat(e, z3.StringVal("\n")))]
+
+
+@function(_base64.b64encode)
+def f_b64encode(it, data, altchars=None):
+    d = it.resolve(data)
+    if not isinstance(d, SBytes) or altchars is not None:
+        raise Unsupported("b64encode of non-bytes / altchars")
+    c = d.concrete()
+    it.ex.note("assumed", "base64: b64encode/a2b_base64 are uninterpreted with a2b_base64(b64encode(x)) == x and b64encode(x) over the base64 alphabet")
+    for ax in b64_axioms(d.t):
+        it.ex.assume(ax)
+    if c is not None:
+        it.ex.assume(b64encode_t(d.t) == bytes_val(_base64.b64encode(c)))
+    return SBytes(b64encode_t(d.t))
+
+
+@function(_binascii.b2a_base64)
+def f_b2a_base64(it, data, **k):
+    d = it.resolve(data)
+    if not isinstance(d, SBytes) or k:
+        raise Unsupported("b2a_base64 of non-bytes / newline=")
+    it.ex.note("assumed", "base64: b64encode/a2b_base64 are uninterpreted with a2b_base64(b64encode(x)) == x and b64encode(x) over the base64 alphabet")
+    for ax in b64_axioms(d.t):
+        it.ex.assume(ax)
+    return SBytes(z3.Concat(b64encode_t(d.t), z3.StringVal("\n")))
+
+
+@function(_binascii.a2b_base64)
+def f_a2b_base64(it, data, **k):
+    d = it.resolve(data)
+    if isinstance(d, SStr):
+        d = SBytes(d.t)  # ASCII str arguments are accepted
+    if not isinstance(d, SBytes):
+        raise Unsupported("a2b_base64 argument")
+    c = d.concrete()
+    if c is not None:
+        try:
+            return lift(_binascii.a2b_base64(c))
+        except _binascii.Error as e:
+            raise I.PyExc(I.exc_obj(_binascii.Error, str(e)))
+    if not it.branch(SBool(b64_valid_t(d.t))):
+        it.raise_(_binascii.Error, "Incorrect padding")
+    r = a2b_t(d.t)
+    it.ex.assume(bytes_range(r))
+    return SBytes(r)
+
+
+def _l1(s):
+    return s.encode("latin-1")
+
+
+def _try(f, default):
+    def g(*a):
+        try:
+            return f(*a)
+        except Exception:
+            return default
+    return g
+
+
+UF_ORACLES["b64encode"] = lambda s: _base64.b64encode(_l1(s))
+UF_ORACLES["a2b_base64"] = _try(lambda s: _binascii.a2b_base64(_l1(s)), b"")
+UF_ORACLES["b64_valid"] = _try(lambda s: (_binascii.a2b_base64(_l1(s)), True)[1], False)
+UF_ORACLES["encode_utf-8_strict"] = _try(lambda s: s.encode("utf-8"), b"")
+UF_ORACLES["encodable_utf-8"] = _try(lambda s: (s.encode("utf-8"), True)[1], False)
+UF_ORACLES["decode_utf-8_replace"] = lambda s: _l1(s).decode("utf-8", "replace")
+UF_ORACLES["decode_utf-8_surrogateescape"] = lambda s: _l1(s).decode("utf-8", "surrogateescape")
+UF_ORACLES["decodable_utf-8"] = _try(lambda s: (_l1(s).decode("utf-8"), True)[1], False)
+UF_ORACLES["decode_utf-8_strict"] = _try(lambda s: _l1(s).decode("utf-8"), "")
+
+
+# ---------------------------------------------------------------------------------------------
+# exact algebraic identities of the codecs, applied syntactically before falling back to lib's uninterpreted models:
+#   utf8-decode(utf8-encode(u)) == u (any error handler: the input is valid UTF-8);  a2b_base64(b64encode(x)[+"\n"]) == x;
+#   str(b64encode(x)).encode(<ascii-compatible codec>) == b64encode(x)  (base64 text is ASCII)
+
+_lib_decode = METHODS[(SBytes, "decode")]
+_lib_encode = METHODS[(SStr, "encode")]
+_UTF8_NAMES = ("utf-8", "utf8", "utf_8")
+_ASCII_COMPAT = _UTF8_NAMES + ("ascii", "latin-1", "latin1", "iso-8859-1")
+
+
+def _is_app_of(t, name):
+    return z3.is_app(t) and t.decl().kind() == z3.Z3_OP_UNINTERPRETED and t.decl().name() == name and t.num_args() == 1
+
+
+def _b64_text_of(t):
+    """x if t is b64encode(x) or b64encode(x) ++ "\\n", else None"""
+    t = simp(t)
+    if _is_app_of(t, "b64encode"):
+        return t.arg(0)
+    ps = _flatten_concat(t)
+    if len(ps) == 2 and _is_app_of(ps[0], "b64encode") and z3.is_string_value(ps[1]) and str_value_to_pystr(ps[1]) == "\n":
+        return ps[0].arg(0)
+    return None
+
+
+def _codec_name(a, k, pos, key, default):
+    v = a[pos] if len(a) > pos else k.get(key)
+    return default if v is None else v.concrete()
+
+
+def _decode_x(it, s, *a, **k):
+    enc = (_codec_name(a, k, 0, "encoding", "utf-8") or "").lower()
+    t = simp(s.t)
+    if enc in _UTF8_NAMES and _is_app_of(t, "encode_utf-8_strict"):
+        return SStr(t.arg(0))
+    if enc in _ASCII_COMPAT and _b64_text_of(t) is not None:
+        return SStr(t)
+    return _lib_decode(it, s, *a, **k)
+
+
+def _encode_x(it, s, *a, **k):
+    enc = (_codec_name(a, k, 0, "encoding", "utf-8") or "").lower()
+    if enc in _ASCII_COMPAT and _b64_text_of(s.t) is not None:
+        return SBytes(simp(s.t))
+    return _lib_encode(it, s, *a, **k)
+
+
+METHODS[(SBytes, "decode")] = _decode_x
+METHODS[(SStr, "encode")] = _encode_x
+
+_f_a2b_plain = f_a2b_base64
+
+
+@function(_binascii.a2b_base64)
+def f_a2b_base64_x(it, data, **k):
+    d = it.resolve(data)
+    if isinstance(d, (SBytes, SStr)) and d.concrete() is None:
+        x = _b64_text_of(d.t)
+        if x is not None:
+            return SBytes(x)
+    return _f_a2b_plain(it, data, **k)
